@@ -65,6 +65,29 @@ reg(
     "DESIGN.md 5/C17",
 )
 
+STREAM_NOTE = ("Bounded: utility alphabet {0(.05), 0.5, 1(.95), NaN} / 4 candidate points against a fixed tiny classifier, chunk sizes and "
+               "horizons as in the evidence; uniform draws explored by comparison region and normal draws by z in {-2,0,2} through a "
+               "lazily decided generator-stream model (StreamRNG), real seeds as conformance; nested default managers of the "
+               "Cognitive*Ran/VarUn/FixUn strategies keep a real seeded generator.")
+reg(
+    "C04",
+    "explicit-state BFS over the real budget managers (transition = query+update of a chunk on a deep copy; states merged on full fingerprint + counters), every random comparison outcome enumerated by tape; invariant + reference recurrence checked at every prefix",
+    "All utility streams over {0,0.5,1,NaN} and all chunkings up to the horizon are explored as a state graph of the real manager "
+    "objects for several budgets and windows; at every prefix the number of granted labels is compared with the bound of the "
+    "statement, every grant with the reference estimate of the spent budget, and the object's own estimate with the reference recurrence.",
+    STREAM_NOTE,
+    "DESIGN.md 5/C04",
+)
+reg(
+    "C10",
+    "explicit-state BFS over all chunked query/update histories of every stream strategy and budget manager; differential oracle: each multi-instance transition vs one-at-a-time processing from the same pre-state under the same generator stream",
+    "From every reachable state every chunk (size <= 2/3) is executed: update must accept query's result, indices must be strictly "
+    "increasing and in range, and for the chunk-invariant managers/strategies decisions and resulting state must equal one-at-a-time "
+    "processing - which, by induction over the first deviating chunk, covers every chunking of every stream up to the horizon.",
+    STREAM_NOTE,
+    "DESIGN.md 5/C10",
+)
+
 
 def main():
     props = [json.loads(l) for l in open(os.path.join(HOME, "properties.jsonl"))]
